@@ -72,6 +72,22 @@ func execC08(caseText string) string {
 		return "bad-case"
 	}
 	var cmpf func(a, b kt) int
+	if strings.TrimSpace(parts[0]) == "mergeZ" {
+		// elements of a zero-size type (all equal under any comparator): only their number is observable
+		var zs []stream.Stream[struct{}]
+		for _, p := range parts[1:] {
+			l, err := parseKts(strings.TrimSpace(p))
+			if err != nil {
+				return "bad-case"
+			}
+			zs = append(zs, stream.Just(make([]struct{}, len(l))...))
+		}
+		res, err := stream.MergeSortedStreams(func(a, b struct{}) int { return 0 }, zs...).Collect(context.Background())
+		if err != nil {
+			return errClass(err)
+		}
+		return fmt.Sprintf("ok z%d", len(res))
+	}
 	switch strings.TrimSpace(parts[0]) {
 	case "merge":
 		cmpf = func(a, b kt) int { return cmp.Compare(a.K, b.K) }
@@ -132,6 +148,9 @@ func emitC08(c *Ctx, ins [][]kt) {
 		head = "mergeS"
 	case 7:
 		head = "mergeA"
+	}
+	if c08n%16 == 8 {
+		head = "mergeZ"
 	}
 	c.Case(nonEmpty >= 2, strings.Join(append([]string{head}, parts...), " | "))
 	_ = total
